@@ -41,6 +41,7 @@ CONSTANTS
     MaxOps,       \* bound on actions
     NoWrap,       \* TRUE: disable allocations whose scan would pass EphHi (so the
                   \*       behaviour is the same on the real 16 384-port range)
+    StallHosts,   \* hosts from which stalled handshakes are started ({} = none)
     ProbeActs,    \* TRUE: Probe* actions are part of Next (design-level run)
     FillFrom,     \* 0, or a port: every (BindHosts, Protos, Fams) starts with a block of sockets
                   \* bound to "lo" on FillFrom..EphHi (how the harness shrinks the real range)
@@ -359,6 +360,22 @@ ProbeSyn(from, fam, sa, sp, da, dp) ==
        /\ UNCHANGED ivars
        /\ last' = [a |-> "probe_syn", cls |-> SynClass(from, fam, sa, sp, da, dp)]
 
+(* A handshake that stalls until the server gives up: tcp::deliver hands the  *)
+(* SYN to the listener (accept_syn: child in SynReceived, bound + indexed),   *)
+(* every SYN-ACK is lost, check_retx retransmits retx_max times and then      *)
+(* abort_timed_out -> abort_with removes the never-accepted child from the    *)
+(* table again (repo commit cbf2d0e).  Taken as one atomic step the tables    *)
+(* are unchanged; without a listener it is an ordinary refused / lost SYN.    *)
+Stall(from, fam, sa, sp, da, dp) ==
+    LET r == ImplSyn(from, fam, sa, sp, da, dp)
+    IN /\ Budget
+       /\ ~Local(from, da)
+       /\ P_Stall(from, fam, sa, sp, da, dp, r.reply)
+       /\ UNCHANGED <<isock, binds, conns, cursor>>
+       /\ last' = [a |-> "stall", from |-> from, fam |-> fam, sa |-> sa, sp |-> sp, da |-> da, dp |-> dp,
+                   reply |-> r.reply]
+       /\ Step
+
 ProbeData(c) ==
     /\ c \in 1..Len(isock) /\ isock[c].open /\ isock[c].mate # 0
     /\ P_Data(c, ImplData(c))
@@ -411,6 +428,9 @@ ProbeSynConn    == ProbeSynAny /\ last'.cls = "conn"
 ProbeSynRst     == ProbeSynAny /\ last'.cls = "rst"
 ProbeSynUnowned == ProbeSynAny /\ last'.cls = "unowned"
 ProbeDataMC == \E c \in 1..Len(isock) : ProbeActs /\ ProbeData(c)
+StallMC == /\ \E from \in StallHosts, fam \in Fams, da \in ConnAddrs : \E dp \in ConnPorts \cup LiveListenerPorts(fam) :
+              "tcp" \in Protos /\ Stall(from, fam, FirstAddr(from), SynPort, da, dp)
+           /\ last'.a = "stall"
 
 \* the alphabet split by outcome class / demux branch (vacuity runs with -coverage)
 NextCov ==
@@ -437,6 +457,7 @@ NextCov ==
     \/ ProbeSynRst
     \/ ProbeSynUnowned
     \/ ProbeDataMC
+    \/ StallMC
 
 \* the alphabet (design-level runs, behaviour generation)
 BindMC == /\ \E h \in BindHosts, proto \in Protos, fam \in Fams, addr \in BindAddrs, port \in BindPorts :
@@ -451,6 +472,7 @@ Next ==
     \/ CloseConnMC
     \/ ConnectUdpMC
     \/ ConnectMC
+    \/ StallMC
 
 Spec == Init /\ [][Next]_vars
 SpecCov == Init /\ [][NextCov]_vars
